@@ -247,7 +247,8 @@ def jobs(tier):
     out = []
     for lang in F.LANGS:
         out.append(Job('fidelity-%s' % lang, h_fidelity, dict(tier=tier, lang=lang), split_depth=2, functions=funcs(),
-                       require_events=['inventory', 'perturbed:var_type', 'perturbed:final', 'perturbed:diamond'],
+                       require_events=['inventory', 'perturbed:final', 'perturbed:diamond'] +
+                       (['perturbed:var_type'] if lang in EXPRESSIBLE['var_type'] else []),
                        budget_s=2400, crosscheck_every=100, setup=lambda t=tier: members(t),
                        bounds='every family member (41 fixtures + %d generated programs per language) x perturbation kind '
                               '{declared variable type, declared return type, diamond flag, finality} x every site of that kind'
